@@ -299,7 +299,7 @@ func commitKey(db *NoKV.DB, reader *Reader, key []byte, lock *Lock, commitVersio
 	if lock.MinCommitTs > commitVersion {
 		return keyErrorCommitTsExpired(key, commitVersion, lock.MinCommitTs)
 	}
-	write, commitTs, err := reader.GetWriteByStartTs(key, lock.Ts)
+	write, _, err := reader.GetWriteByStartTs(key, lock.Ts)
 	if err != nil {
 		return keyErrorRetryable(err)
 	}
@@ -307,12 +307,11 @@ func commitKey(db *NoKV.DB, reader *Reader, key []byte, lock *Lock, commitVersio
 		if write.Kind == pb.Mutation_Rollback {
 			return keyErrorAbort("transaction already rolled back")
 		}
-		if commitTs != commitVersion {
-			// Already committed with a different commit version; treat as success.
-			if err := db.DeleteVersionedEntry(kv.CFLock, key, lockColumnTs); err != nil && err != utils.ErrKeyNotFound {
-				return keyErrorRetryable(err)
-			}
-			return nil
+		// The key is already committed (possibly by an earlier Commit that
+		// failed between writing the record and removing the lock): whatever commit
+		// version is presented, the leftover lock must go, otherwise it is never released.
+		if err := db.DeleteVersionedEntry(kv.CFLock, key, lockColumnTs); err != nil && err != utils.ErrKeyNotFound {
+			return keyErrorRetryable(err)
 		}
 		return nil
 	}
